@@ -108,6 +108,48 @@ def _disjuncts(e):
     return [e]
 
 
+def _k6(ctx, R, cc):
+    """the counterpart of an element is looked up inside the counterpart of the element's container: in a loop over
+    `<orig container>.<relation>` the lookup root is the copy-side container of the same level (the copy-side parameter when the
+    original-side container is a parameter, self.ir_composer when it is self.ir_orig)"""
+    R.rule("K6", "counterpart lookups stay inside the counterpart container of the same level")
+    n = 0
+    for mname, f in sorted(cc.methods.items()):
+        S = Sides(f)
+        for lp in walk_local(f.node):
+            if not (isinstance(lp, ast.For) and isinstance(lp.iter, ast.Attribute) and S.of(lp.iter.value) == "O"):
+                continue
+            a_root = lp.iter.value
+
+            def level(e):
+                if isinstance(e, ast.Name) and e.id in f.params:
+                    return "param"
+                if isinstance(e, ast.Attribute) and norm(e) in ("self.ir_orig", "self.ir_composer"):
+                    return "netlist"
+                return None
+            la = level(a_root)
+            if la is None:
+                continue
+            for c in [x for st in lp.body for x in ast.walk(st)]:
+                if not (isinstance(c, ast.Call) and isinstance(c.func, ast.Attribute) and c.func.attr.startswith("get_") and c.func.attr[4:] in
+                        ("libraries", "definitions", "ports", "cables", "instances", "pins", "wires")):
+                    continue
+                root = c.args[0] if norm(c.func.value) in ("sdn", "spydrnet") and c.args else c.func.value
+                if S.of(root) != "C":
+                    continue
+                n += 1
+                lb = level(root)
+                if lb == la:
+                    R.ok("K6", "%s: %s looked up in %s" % (mname, c.func.attr[4:], norm(root)), f.loc(c))
+                else:
+                    R.bad("K6", "%s|%s|%s" % (f.key, c.func.attr, norm(root)), f.loc(c),
+                          "%s walks `%s` of the original but looks the counterpart up in `%s`, not in the counterpart of `%s`: with the same name "
+                          "present in two containers the wrong element is compared (a faithful copy is rejected, or a difference is missed)"
+                          % (mname, norm(lp.iter), norm(root), norm(a_root)))
+    R.count("counterpart lookups (K6)", n)
+    R.floor("counterpart lookups (K6)", 5)
+
+
 @register("C20",
           "Static analysis of Comparer: K1 two-sided taint — every ==/!=/is inside an assert and every call of a two-sided helper has one "
           "operand derived from the original and one from the copy, on matching access paths (same-side comparisons are only allowed as "
@@ -119,6 +161,7 @@ def _disjuncts(e):
 def check_c20(ctx, R):
     P = ctx.P
     cc = P.cls(CMP, "Comparer")
+    _k6(ctx, R, cc)
     R.rule("K1", "two-sidedness of every asserted comparison and two-sided helper call")
     R.rule("K2", "required comparisons are present")
     R.rule("K3", "no early exit past required comparisons")
